@@ -41,6 +41,10 @@ CTX = {
         "negative": (["def f(q):", "    return q + -{t}"], None),
         "UPPER-const": (["LIMIT_A = {t}", "", "def f(q):", "    return q"], "const"),
         "UPPER-const-in-class": (["class K:", "    MAX_N = {t}"], "const"),
+        "UPPER-const-negative": (["LIMIT_A = -{t}", "", "def f(q):", "    return q"], "const"),
+        "UPPER-const-annotated": (["LIMIT_A: int = {t}", "", "def f(q):", "    return q"], "const"),
+        "lower-annotated": (["def f(q):", "    y: int = {t}", "    return y"], None),
+        "enumerate-start-kw": (["def f(xs):", "    for i, x in enumerate(xs, start={t}):", "        pass"], "small-int"),
         "range": (["def f(q):", "    for i in range({t}):", "        q += i", "    return q"], "small-int"),
         "enumerate": (["def f(xs):", "    for i, x in enumerate(xs, {t}):", "        pass"], "small-int"),
         "str-format-mod": (["def f(q):", "    return 'n=%d' % {t}"], None),
@@ -94,8 +98,9 @@ NON_NUMERIC = {
 FILES = {
     "python": (("app.py", False), ("test_app.py", True), ("app_test.py", True), ("constants.py", "def"),
                ("http_codes.py", "def")),
-    "typescript": (("app.ts", False), ("app.test.ts", True), ("app.spec.ts", True)),
-    "javascript": (("app.js", False), ("app.test.js", True)),
+    "typescript": (("app.ts", False), ("app.test.ts", True), ("app.spec.ts", True), ("latest_v.ts", False),
+                   ("contest_x.ts", False), ("test_app.ts", True)),
+    "javascript": (("app.js", False), ("app.test.js", True), ("fastest_path.js", False)),
     "rust": (("app.rs", False),),
 }
 
@@ -159,6 +164,69 @@ def make_h(tier):
             expected_total += 1 if want_c else 0
         ctx.require("nothing-else-reported", len(vs) == expected_total, got=[(v.line, v.message) for v in vs],
                     want=expected_total)
+    return h
+
+
+# ------------------------------------------------------------------ K3: constants-definition modules by content
+UPPER_KINDS = {            # kind -> (line template, counts as an UPPER_CASE numeric constant)
+    "int": ("CODE_{i} = {v}", True), "float": ("CODE_{i} = {v}.5", True), "negative": ("CODE_{i} = -{v}", True),
+    "annotated": ("CODE_{i}: int = {v}", True), "bool": ("CODE_{i} = True", False), "string": ("CODE_{i} = '{v}'", False),
+    "lowercase-name": ("code_{i} = {v}", False),
+}
+
+
+def make_h_defmod(tier):
+    quick = tier == "quick"
+
+    def h(ctx):
+        """A Python module is a constants-definition module by content iff ONE dict literal has 5+ integer keys or the
+        module has 10+ UPPER_CASE numeric constants (documented heuristics); exactly then its other literals are exempt."""
+        from src.linters.magic_numbers.linter import MagicNumberRule
+        fname = ctx.pick("file", ("lookup_tables.py", "settings.py"))
+        ndicts = ctx.pick("ndicts", (0, 1, 2, 3))
+        sizes = [ctx.pick(f"keys{i}", (2, 4, 5) if quick else (0, 2, 4, 5, 6)) for i in range(ndicts)]
+        key_kind = ctx.pick("key_kind", ("int", "two-bools-then-ints", "digit-strings")) if ndicts else "int"
+        placement = ctx.pick("dict_placement", ("module", "in-function", "nested-in-one-dict")) if ndicts else "module"
+        nupper = ctx.pick("n_upper", (0, 9, 10) if quick else (0, 3, 9, 10, 12))
+        ukind = ctx.pick("upper_kind", tuple(UPPER_KINDS)) if nupper else "int"
+        allowed, lines, real_int_keys = [424242], [], []
+        dict_texts = []
+        for d, n in enumerate(sizes):
+            keys = []
+            for k in range(n):
+                v = 200 + 10 * d + k
+                if key_kind == "two-bools-then-ints" and k < 2:
+                    keys.append(("True", "False")[k])
+                elif key_kind == "digit-strings":
+                    keys.append(f"'{v}'")
+                else:
+                    keys.append(str(v))
+                    allowed.append(v)
+            real_int_keys.append(sum(1 for k in keys if k.isdigit()))
+            dict_texts.append("{" + ", ".join(f"{k}: 'name{j}'" for j, k in enumerate(keys)) + "}")
+        if placement == "module":
+            lines += [f"table_{d} = {t}" for d, t in enumerate(dict_texts)]
+        elif placement == "in-function":
+            lines += ["def tables():"] + [f"    t{d} = {t}" for d, t in enumerate(dict_texts)] + ["    return locals()"]
+        else:
+            lines += ["registry = {" + ", ".join(f"'group{d}': {t}" for d, t in enumerate(dict_texts)) + "}"]
+        tmpl, counts = UPPER_KINDS[ukind]
+        for i in range(nupper):
+            lines.append(tmpl.format(i=chr(65 + i) * 2, v=300 + i))
+            if not counts:
+                allowed.append(300 + i)          # a lower-case assignment is not exempt by itself
+        lines += ["", "def f(q):", "    return q * 3975"]
+        probe_line = len(lines)
+        content = "\n".join(lines) + "\n"
+        is_def = any(n >= 5 for n in real_int_keys) or (counts and nupper >= 10)
+        ctx.note("is_definition_module", bool(is_def))
+        vs = MagicNumberRule().check(mkctx("python", content, {"magic_numbers": {"allowed_numbers": allowed}},
+                                           path="/proj/src/" + fname))
+        ctx.cover("definition-module" if is_def else "ordinary-module")
+        mine = [v for v in vs if v.line == probe_line]
+        ctx.require("literal-exempt-iff-definition-module", len(mine) == (0 if is_def else 1),
+                    int_keys_per_dict=real_int_keys, n_upper=nupper, upper_kind=ukind, got=[(v.line, v.message) for v in vs])
+        ctx.require("nothing-else-reported", len(vs) == len(mine), got=[(v.line, v.message) for v in vs])
     return h
 
 
@@ -245,7 +313,15 @@ def obligations(tier):
                   "section-key spelling, presence of booleans/strings/identifiers with digits"
                   % (len(SPELL["python"]), len(SPELL["typescript"]), len(SPELL["rust"]), len(CTX["python"]), len(CTX["typescript"]), len(CTX["rust"])),
            timeout=400 if tier == "quick" else 2400, workers=14, must_cover=("flagged", "not-flagged"),
-           outside="float formatting in the message beyond numeric equality; heuristic content-based definition-file detection"),
+           outside="float formatting in the message beyond numeric equality; content-based definition-file detection is K3's subject"),
+        Ob(name="K3-definition-module-by-content", engine="pathex", harness=make_h_defmod(tier),
+           functions=["MagicNumberRule._check_python", "definition_detector.is_definition_file/_has_definition_content_patterns/"
+                      "_count_uppercase_constants/_has_dict_with_int_keys/_count_int_keys/_is_int_key"],
+           bounds="forked: 0-3 dict literals with 0-6 keys each (int keys, two booleans then ints, digit strings), placed at module "
+                  "level / in a function / nested in one outer dict; 0-12 UPPER_CASE assignments of one of %d kinds; a probe literal "
+                  "3975 in a function" % len(UPPER_KINDS),
+           timeout=300 if tier == "quick" else 900, workers=14, must_cover=("definition-module", "ordinary-module"),
+           outside="file-name based detection (K1's file table); thresholds other than the documented 5 keys / 10 constants"),
         Ob(name="K2-symbolic-node-kinds-whole-grammar", engine="pathex", harness=h_kinds,
            functions=["TypeScriptMagicNumberAnalyzer.find_numeric_literals/_collect_numeric_literals/_extract_numeric_value/is_enum_context",
                       "RustMagicNumberAnalyzer.find_numeric_literals/_collect_numeric_literals/is_constant_definition"],
